@@ -68,6 +68,13 @@ Definition run (d : decomp) (v : view) : out :=
   | DTtm cs, VMatrix => rt (ttm_to_matrix Zops cs)
   | DTtm cs, VUnfolded m => rt (ttm_to_unfolded Zops cs m)
   | DTtm cs, VVec => rt (ttm_to_vec Zops cs)
+  | DTucker c fs skip tr, VUnfoldedNeg k => rt (unfolded_neg Zops (tucker_to_tensor Zops c fs skip tr) k)
+  | DTucker c fs skip tr, VEin (VUnfoldedNeg k) => rt (unfolded_neg Zops (tucker_to_tensor_einsum_b Zops c fs skip tr) k)
+  | DTt cs, VUnfoldedNeg k => rt (unfolded_neg Zops (tt_to_tensor Zops cs) k)
+  | DTr cs, VUnfoldedNeg k => rt (unfolded_neg Zops (tr_to_tensor Zops cs) k)
+  | DTtm cs, VUnfoldedNeg k => rt (unfolded_neg Zops (ttm_to_tensor Zops cs) k)
+  | DTtm cs, VEin (VUnfoldedNeg k) => rt (unfolded_neg Zops (ttm_to_tensor_einsum Zops cs) k)
+  | DP2 w fs ps, VUnfoldedNeg k => rt (unfolded_neg Zops (parafac2_to_tensor Zops w fs ps) k)
   | DCp w fs _, VEin VValidate => match validate_cp w fs with Ok (s, r) => OSR s [r] | Err => OErr end
   | DCp w fs mask, VEin VTensor => rt (cp_to_tensor_from_einsum Zops (validate_cp w fs) w fs mask)
   | DCp w fs _, VEin (VUnfolded m) => rt (cp_to_unfolded_from_einsum Zops (validate_cp w fs) w fs m)
@@ -158,6 +165,7 @@ Definition obj_view (d : decomp) (x : obj) (v : view) : out :=
   | OTt o, VTensor => rt (tt_to_tensor_from Zops (Ok (cho_shape o, cho_rank o)) (cho_cores o))
   | OTt o, VUnfolded m => rt (tt_to_unfolded_from Zops (Ok (cho_shape o, cho_rank o)) (cho_cores o) m)
   | OTt o, VVec => rt (tt_to_vec_from Zops (Ok (cho_shape o, cho_rank o)) (cho_cores o))
+  | OTt o, VUnfoldedNeg k => rt (unfolded_neg Zops (tt_to_tensor_from Zops (Ok (cho_shape o, cho_rank o)) (cho_cores o)) k)
   | OTt o, VNorm => rnorm (tt_to_tensor_from Zops (Ok (cho_shape o, cho_rank o)) (cho_cores o))
   | OTt o, _ => OBad
   | OTr o, v' => run (DTr (cho_cores o)) v'
@@ -168,6 +176,7 @@ Definition obj_view (d : decomp) (x : obj) (v : view) : out :=
   | OP2 o, VTensor => rt (p2o_to_tensor Zops o)
   | OP2 o, VUnfolded m => rt (rbind (p2o_to_tensor Zops o) (fun t => unfold 0%Z t m))
   | OP2 o, VVec => rt (rbind (p2o_to_tensor Zops o) tensor_to_vec)
+  | OP2 o, VUnfoldedNeg k => rt (unfolded_neg Zops (p2o_to_tensor Zops o) k)
   | OP2 o, VNorm => rnorm (p2o_to_tensor Zops o)
   | _, _ => OBad
   end.
